@@ -99,7 +99,9 @@ def _run_task(task):
         from vf import guard
 
         guard.HANGS[0] = 0
+        t_chunk = time.process_time()
         r = func(params, lo, hi)
+        r["cpu_s"] = time.process_time() - t_chunk
         for v in r["violations"]:
             v["_chunk"] = [jname, lo, hi]  # replay handle for failures that depend on the calls made before them
             v["_prior_chunks"] = prior  # ... including the chunks the same worker process ran earlier
@@ -287,6 +289,7 @@ def run_check(pid: str, tier: str, seed: int, procs: int, only: str | None = Non
             if len(a["samples"]) < 2:
                 a["samples"].extend(r["samples"][: 2 - len(a["samples"])])
             a["capped"] = a["capped"] or r["capped"]
+            a["cpu_s"] = a.get("cpu_s", 0.0) + r.get("cpu_s", 0.0)
             done[jname] += hi - lo
             n_viol += len(r["violations"])
             n_hang += r["counters"].get("hangs", 0)
@@ -357,6 +360,7 @@ def run_check(pid: str, tier: str, seed: int, procs: int, only: str | None = Non
             "nontrivial": agg[j.name]["nontrivial"],
             "outcomes": dict(agg[j.name]["outcomes"]),
             "capped": agg[j.name]["capped"],
+            "cpu_s": round(agg[j.name].get("cpu_s", 0.0), 1),
             "describe": j.describe,
         }
         for j in jobs
